@@ -368,6 +368,41 @@ async fn dispatch(op: &Value) -> Value {
     }
 }
 
+/// Polls the wrapped future at most `left` times, then gives up: dropping it cancels the operation at that await point.
+struct CancelAfter<F> {
+    fut: std::pin::Pin<Box<F>>,
+    left: usize,
+}
+
+impl<F: std::future::Future> std::future::Future for CancelAfter<F> {
+    type Output = Option<F::Output>;
+    fn poll(mut self: std::pin::Pin<&mut Self>, cx: &mut std::task::Context<'_>) -> std::task::Poll<Self::Output> {
+        if self.left == 0 {
+            return std::task::Poll::Ready(None);
+        }
+        self.left -= 1;
+        match self.fut.as_mut().poll(cx) {
+            std::task::Poll::Ready(v) => std::task::Poll::Ready(Some(v)),
+            std::task::Poll::Pending => {
+                if self.left == 0 {
+                    std::task::Poll::Ready(None)
+                } else {
+                    std::task::Poll::Pending
+                }
+            }
+        }
+    }
+}
+
 pub fn exec_async(op: &Value) -> Value {
+    if let Some(k) = op.get("cancel_polls").and_then(|v| v.as_u64()) {
+        // the caller drops the future of the whole call after k polls (select!/timeout style cancellation)
+        return run(async move {
+            match (CancelAfter { fut: Box::pin(dispatch(op)), left: k as usize }).await {
+                Some(v) => v,
+                None => json!({"r":"cancelled","polls":k}),
+            }
+        });
+    }
     run(dispatch(op))
 }
